@@ -290,8 +290,13 @@ type inlineState struct {
 }
 
 func (state *inlineState) spanEnd() int {
-	if state.unparsedPos >= len(state.unparsed) {
-		return len(state.source)
+	if n := len(state.unparsed); state.unparsedPos >= n {
+		// The cursor has moved past the last span
+		// (e.g. after a construct that ends exactly at the end of the last line).
+		if n == 0 {
+			return 0
+		}
+		return state.unparsed[n-1].Span().End
 	}
 	return state.unparsed[state.unparsedPos].Span().End
 }
